@@ -1106,7 +1106,16 @@ class Interp:
         elif k in ('While', 'For'):
             yield from self.loop(s, st)
         elif k == 'Switch':
-            yield from self.switch(s, st)
+            if s.get('init'):
+                for kind, v, s1 in self.run(s['init'], st):
+                    if kind != 'fall': yield kind, v, s1
+                    else: yield from self.run(dict(s, init=None), s1)
+                return
+            if s.get('var'):        # switch( const auto c = ... )
+                for kind, v, s1 in self.decls([s['var']], 0, st):
+                    if kind != 'fall': yield kind, v, s1
+                    else: yield from self.switch(s, s1)
+            else: yield from self.switch(s, st)
         elif k == 'Break': yield 'break', None, st
         elif k == 'Continue': yield 'continue', None, st
         else:
